@@ -1048,7 +1048,9 @@ def ladder_findings(seed, full=False, max_findings=4):
             given = numpy.array(given)
         dyn = rng.random() < 0.6 and len(betas) >= 3 and all(b > 0 for b in betas[:-1]) and not dup
         tmax_prior = rng.random() < 0.6
-        ann = DynamicalAnnealer(tau=rng.choice([20, 50, 1000]), nu=rng.choice([2, 4, 10]), Tmax_prior=tmax_prior) \
+        # (small nu = strong adaptation: with a finite hottest temperature an intermediate beta can drop
+        # below the hottest one, and the ladder must then be carried unsorted, as it is)
+        ann = DynamicalAnnealer(tau=rng.choice([20, 50, 1000]), nu=rng.choice([2, 4, 10, 0.1, 0.5]), Tmax_prior=tmax_prior) \
             if dyn else None
         s = rng.choice([1, 2, 3])
         cfg = {'given': [float(g) for g in given], 'given_type': type(given).__name__, 'dynamic': dyn, 'Tmax_prior': tmax_prior, 'swap_interval': s}
@@ -1103,8 +1105,12 @@ def ladder_findings(seed, full=False, max_findings=4):
         if dyn:
             try:
                 st_ = pickle.loads(pickle.dumps(smp.state))
+                tann = None
+                if rng.random() < 0.5:      # a proper resume: the target has an annealer of its own
+                    tann = DynamicalAnnealer(tau=ann._tau, nu=ann._nu, Tmax_prior=tmax_prior)
                 tgt = ParallelTemperedSampler(['x'], M(), len(smp.chains), given, swap_interval=s,
-                                              proposals=[Normal(['x'], cov=[0.5])], seed=rng.randrange(1 << 20))
+                                              proposals=[Normal(['x'], cov=[0.5])], adaptive_annealer=tann,
+                                              seed=rng.randrange(1 << 20))
                 tgt.set_state(st_)
                 for it in range(1, 6):
                     for ci, ch in enumerate(tgt.chains):
@@ -1117,7 +1123,7 @@ def ladder_findings(seed, full=False, max_findings=4):
                                 'sampler built with %s: ladder %s, levels %s, sampler.betas %s' % (
                                     src, sorted([float(g) for g in given], reverse=True), lad, lev,
                                     [float(b) for b in tgt.betas[ci]]), cfg)
-                        if lev != src:
+                        if lev != src and (tann is None or it == 1):     # (a target with an annealer goes on adapting)
                             bad('loaded-ladder-not-the-saved-one', 'the levels of the loaded sampler sample at %s, the state '
                                 'was saved at %s' % (lev, src), cfg)
                     with SweepCapture() as cap:
@@ -1445,15 +1451,20 @@ def reset_after_swap_findings(seed, n=4, max_findings=2):
         return orig(self_)
 
     class M:
+        blobs = False
+
         def __call__(self, x, y):
-            return -math.floor(40 * ((x - 0.3) ** 2 + (y + 0.2) ** 2)) / 8.0, (0.0 if abs(x) < 3 and abs(y) < 3 else -numpy.inf)
+            r = -math.floor(40 * ((x - 0.3) ** 2 + (y + 0.2) ** 2)) / 8.0, (0.0 if abs(x) < 3 and abs(y) < 3 else -numpy.inf)
+            return r + ({'r': float(x * x + y * y)},) if self.blobs else r
     Chain.reset_proposals = logged
     try:
-        for _ in range(n):
+        for k_ in range(n):
             nt = rng.choice([5, 6, 8])
             betas = [float(10.0 ** (-rng.choice([3.0, 4.0, 5.0]) * j / (nt - 1))) for j in range(nt)]
+            mdl = M()
+            mdl.blobs = k_ % 2 == 1          # the optional parts of a state (blobs) must not change who is reset
             with SweepCapture() as cap:
-                smp = ParallelTemperedSampler(['x', 'y'], M(), 2, numpy.array(betas), swap_interval=rng.choice([1, 2]),
+                smp = ParallelTemperedSampler(['x', 'y'], mdl, 2, numpy.array(betas), swap_interval=rng.choice([1, 2]),
                                               proposals=[AdaptiveNormal(['x', 'y'], {'x': 6., 'y': 6.}, 10 ** 6)],
                                               reset_after_swap=True, seed=rng.randrange(1 << 20))
                 smp.start_position = {p: numpy.array([[rng.uniform(-2, 2) for _ in smp.chains] for _ in range(nt)])
